@@ -21,7 +21,7 @@ FAMILY = {
     "__main__.py": ["C18", "C05"],
     "noxfile.py": ["C05"],
     "converters.py": ["C19", "C01", "C10"],
-    "rust": ["C07", "C05"],
+    "rust": ["C07", "C05", "C16"],
     "dotnet": ["C08"],
     "testdata": ["C17", "C16"],
 }
@@ -38,7 +38,7 @@ def checks_for(seed: str, patch: str):
                 for c in v:
                     if c not in out:
                         out.append(c)
-    if own in ("C06",) or seed in ("C07-2", "C07-3"):
+    if own in ("C06",) or seed in ("C07-2", "C07-3", "C07-5", "C07-6"):
         if "C06" not in out:
             out.append("C06")
     return out
@@ -50,7 +50,15 @@ def run_seed(seed: str):
     os.rmdir(wt)
     res = {}
     try:
-        subprocess.run(["git", "-C", "/repo", "worktree", "add", "-q", "--detach", wt, "HEAD"], check=True, capture_output=True)
+        for attempt in range(8):  # concurrent `git worktree add` calls contend for a lock in /repo/.git
+            r = subprocess.run(["git", "-C", "/repo", "worktree", "add", "-q", "--detach", wt, "HEAD"], capture_output=True, text=True)
+            if r.returncode == 0:
+                break
+            import time
+
+            time.sleep(0.5 + attempt)
+        else:
+            return seed, {"_error": "git worktree add failed: " + r.stderr[:200]}
         ap = subprocess.run(["git", "-C", wt, "apply", patch], capture_output=True, text=True)
         if ap.returncode != 0:
             return seed, {"_error": "patch does not apply: " + ap.stderr[:200]}
